@@ -48,6 +48,7 @@ SumArgs(args) ==
     IN IF \E i \in 1..Len(cs) : cs[i].t = "open" THEN Open ELSE SumSeq(FlatVals(cs))
 
 UpName(f) == f      \* names in instances are written in upper case unless a case says otherwise
+SameNameIgnoringCase(a, b) == UpperSeq(NameCodes(a)) = UpperSeq(NameCodes(b))
 
 EvalCallStrict(f, vals) ==
     CASE f = "SUM"    -> SumArgs(vals)
@@ -74,7 +75,11 @@ Eval(a, sh, wb) ==
             LET s2 == IF a.sheet = "" THEN sh ELSE a.sheet IN
             Arr([r \in 1..(a.r2 - a.r1 + 1) |->
                    [c \in 1..(a.c2 - a.c1 + 1) |-> EvalCell(wb, s2, a.c1 + c - 1, a.r1 + r - 1)]])
-      [] a.k = "name" -> IF a.v \in DOMAIN wb.names THEN Eval(wb.names[a.v], sh, wb) ELSE Err("#NAME?")
+      \* (a name spelt in another letter case than its definition: Excel's names are case-insensitive, the library's
+      \* lookup is not - no listed property fixes the value: Open; models of the same workbook must still agree on it)
+      [] a.k = "name" -> IF a.v \in DOMAIN wb.names THEN Eval(wb.names[a.v], sh, wb)
+                         ELSE IF \E n \in DOMAIN wb.names : SameNameIgnoringCase(n, a.v) THEN Open
+                         ELSE Err("#NAME?")
       [] a.k = "paren" -> Eval(a.x, sh, wb)
       [] a.k = "neg"  -> OpNeg(Eval(a.x, sh, wb))
       [] a.k = "pct"  -> OpPct(Eval(a.x, sh, wb))
